@@ -6,13 +6,15 @@ func init() {
 		Explanation: "Conflict-freedom lemma decided by the solver-driven engine, plus a commutation argument. Lemma (H15): two connections are served by one Server through the real serve path, with solver-chosen traffic (symbolic users, the same symbolic statement/portal name on both, extended and simple queries, statements that write rows through the type map or only complete); on every explored path the engine records every heap cell the library reads or writes on behalf of each connection and the locks held, and asserts that no cell written for one connection is read or written for the other unless both accesses are sync/atomic operations or hold a common lock; environment models contribute their declared footprints (pgtype.Map.Encode WRITES its receiver: confirmed natively with the race detector on pgx itself). From the lemma to the property (argument, not solver): steps of different connections that touch disjoint mutable state commute, so every interleaving of the two connections is equivalent to serving them one after the other - each transcript and callback trace equals the solo one, and no pair of conflicting unsynchronised accesses exists. The schedule quantifier is discharged by this reduction; the solver decides the per-connection footprints for all inputs in the bound. The Go scheduler/memory model itself and races inside dependencies beyond their declared footprints cannot be encoded.",
 		Assumptions: P(pgStub,
 			"accesses made by harness callbacks to their own bookkeeping are not part of the library's footprint",
-			"two connections; each: startup + optional Parse/Bind/Describe/Execute/Sync + optional simple query + Terminate (H15); startup + optional oversized message, unknown message type, failing Bind, COPY-in cycle around one extended-query round (H15f)",
+			"two connections, optionally after an earlier connection that has come and gone (a CancelRequest, a refused SSLRequest, a truncated startup packet, a complete session); each: startup + optional Parse/Bind/Describe/Execute/Sync + optional simple query + Terminate (H15); startup + optional oversized message, unknown message type, failing Bind, COPY-in cycle around one extended-query round (H15f)",
 			"sequential consistency of sync/atomic operations; plain accesses are the subject of the lemma",
 			"H15s: goroutines started by the code under test are executed at the go statement (one schedule) under their own origin; the conflict relation is order-insensitive except for the go statement itself (creator's earlier accesses happen-before the goroutine); a goroutine that would block on a channel is left blocked",
 		),
 		Runs: []HarnessRun{
 			{Pkg: "wire", Entry: "VerifH15", What: "no cell written for one connection is touched for the other without synchronisation; per-connection session_authorization; configured map untouched",
-				Quick: map[string]int{}, Witnesses: []string{"both-encode-rows", "same-names-on-both", "with-type-extension", "empty-configured-map", "with-authentication"}},
+				Quick: map[string]int{"PRELUDE": 1}, Thorough: map[string]int{"PRELUDE": 5}, Witnesses: []string{"both-encode-rows", "same-names-on-both", "with-type-extension", "empty-configured-map", "with-authentication"}},
+			{Pkg: "wire", Entry: "VerifH15", What: "same, after an earlier connection that has come and gone (CancelRequest, refused SSLRequest, truncated startup packet, complete session): whatever it left behind in the server or in package-level state is not shared by the two",
+				Quick: map[string]int{"PRELUDE": 5, "FULLTRAFFIC": 1}, Thorough: map[string]int{"PRELUDE": 5, "FULLTRAFFIC": 1}, Witnesses: []string{"both-encode-rows", "after-a-cancel-request", "after-an-earlier-session"}},
 			{Pkg: "wire", Entry: "VerifH15f", What: "the same lemma on the less travelled paths: each connection optionally skips an oversized message, sends an unknown message type, fails a Bind and is discarded until Sync, runs a COPY-in cycle, and fails a statement with one shared, fully decorated error value re-decorated with the connection's own values; transcripts and callback traces equal those of the same traffic served alone by a fresh server",
 				Quick: map[string]int{}, Witnesses: []string{"both-skip-an-oversized-message", "both-copy-in", "both-discard-until-sync", "both-decorate-a-shared-error"}},
 			{Pkg: "wire", Entry: "VerifH15s", What: "the accept loop: Server.Serve on a listener handing out two connections; every goroutine the loop starts runs under an origin of its own (accesses the creator made before the go statement are ordered before the goroutine); no unsynchronised sharing between the loop and the connections or among the connections; each connection served as its own user",
